@@ -23,9 +23,6 @@ theorem foldl_range_inv {β : Type} (f : β → Nat → β) (P : Nat → β → 
 
 /-! ## `rfunc` on the `added` counters -/
 
-/-- the fathers of row `i` -/
-def fathers (edges : Array (List Edge)) (i : Nat) : List Nat := (edges.getD i []).map (·.father)
-
 /-- what `rfunc k` does to `AddedSons` -/
 def addStep (edges : Array (List Edge)) (k : Nat) (a : Array Nat) : Array Nat :=
   (edges.getD k []).foldl (fun a e => a.modify e.father (· + 1)) (a.setIfInBounds k 0)
